@@ -103,17 +103,17 @@ def instantiate_proxy_source(templates):
 METHOD_KINDS = ["exec", "query", "sudo", "migrate"]
 
 
-def proxy_methods_source(templates):
+def proxy_methods_source(templates, side="contract"):
     """the four kinds of generated proxy method (contract/mt.rs emit_mt_method_definition: exec, query, sudo, migrate), for
     any contract and any method: the method's name becomes `<kind>_method`, its parameter list ONE parameter `args`, the
     argument list of the message constructor that one argument"""
     fns = []
     for i, kind in enumerate(METHOD_KINDS):
-        key = "contract/mt.rs::<MsgVariant<'_>asEmitMethods>::emit_mt_method_definition#t%d" % i
+        key = "%s/mt.rs::<MsgVariant<'_>asEmitMethods>::emit_mt_method_definition#t%d" % (side, i)
         fns.append(instantiate(templates, key, {}, extra_holes={"name": "%s_method" % kind, "api": "ApiT", "type_name": "KindMsg", "return_type": "ReturnT"},
                                rep_subst={"params": "args : ArgsT ,", "arguments": "args"}))
     want = {"exec": "ExecProxy :: new", "query": "query_wasm_smart", "sudo": "wasm_sudo", "migrate": "MigrateProxy :: new"}
     for kind, text in zip(METHOD_KINDS, fns):
         if want[kind] not in text:
             raise TranslateError("generated %s proxy method: the template no longer contains `%s`" % (kind, want[kind]))
-    return write_source("proxy_methods", "impl ProxyT { %s }" % " ".join(fns))
+    return write_source("proxy_methods_%s" % side, "impl ProxyT { %s }" % " ".join(fns))
